@@ -398,6 +398,18 @@ func (c19) Exec(sc *sim.Scenario, env *sim.Env) *sim.Violation {
 			}
 			continue
 		}
+		if (sc.Seed>>13+uint64(i))%7 == 0 {
+			// a trial block: measured in a clone of the measuring emitter and thrown away (the
+			// other of two encodings was shorter); the measuring emitter is where it was
+			sim.RecoverLib(func() {
+				if t := nilE.Clone(nil); t != nil {
+					t.NOP()
+					t.SEP(0x30)
+					t.Label("trial_block_label")
+				}
+			})
+			st.Probe("trial_clone_of_measuring_emitter")
+		}
 		p1, m1 := asmApply(nilE, op)
 		p2, m2 := asmApply(ample, op)
 		st.SimOps += 2
